@@ -166,6 +166,21 @@ def check_records(case, d, ctx, pytrs):
     tracts = list(d.tracts)
     tl = pytrs.TractList(tracts)
     ctx.hit('records')
+    if len(tracts) % 3 == 0:
+        # the empty selection: still one (empty) record per tract
+        ctx.hit('records:no-attributes')
+        for holder_name, holder in (('PLSSDesc', d), ('TractList', tl)):
+            for what, recs in (
+                    ('tracts_to_dict()', holder.tracts_to_dict()),
+                    ('tracts_to_list([])', holder.tracts_to_list([])),
+                    ('iter_to_dict()', list(holder.iter_to_dict())),
+                    ('iter_to_list([])', list(holder.iter_to_list([])))):
+                if len(recs) != len(tracts) or any(len(r) for r in recs):
+                    ctx.violation('record-count', case,
+                                  f"{holder_name}.{what}: {short(repr(recs), 80)}"
+                                  f" for {len(tracts)} tracts, expected one "
+                                  f"empty record each", dedup='empty|' + what)
+                    return
     for holder_name, holder in (('PLSSDesc', d), ('TractList', tl)):
         dicts = holder.tracts_to_dict(*attrs)
         lists = holder.tracts_to_list(attrs)
